@@ -2,6 +2,7 @@
 
 U1 = "u1_sched"
 U3 = "u3_world"
+U4 = "u4_meta"
 STAR_OWNERS = ("C04",)   # the shared shape / safety clauses (`*`) belong to these; for other properties a failing `*` clause is "undecided"
 
 PROPS = {
@@ -11,12 +12,15 @@ PROPS = {
                 undecided_sentences=["'A's run has completely ended before B begins to fetch' in time: layout order is proved, execution discipline trusted"]),
     "C03": dict(runs=[dict(unit=U1, groups=["bar"])], own_groups=["bar"],
                 undecided_sentences=["'has finished before ... begins' in time (trusted execution discipline)"]),
-    "C08": dict(runs=[dict(unit=U3, groups=["brw"], mode="P")], own_groups=["brw"],
+    "C08": dict(runs=[dict(unit=U3, groups=["brw"], mode="P"), dict(unit=U4, groups=["brw"], mode="P")], own_groups=["brw"],
                 undecided_sentences=["the three-state discipline of one cell, its thread-safety and release on drop / unwind are atomic_refcell's and Rust's drop glue (dependency / language, trusted)",
                                      "multi-threaded histories are not explored"]),
     "C09": dict(runs=[dict(unit=U3, groups=["typed"], mode="P"), dict(unit=U3, groups=["typed"], mode="T")], own_groups=["typed", "P", "T"], owns_shared=True,
                 undecided_sentences=["'every value is dropped exactly once': ownership / drop glue (trusted)", "entry / or_insert(_with) / get_mut(_raw): std hash_map::Entry and HashMap::get_mut have no vstd model (not under contract)",
                                      "'leaves the world unchanged' on a mismatching call is decided as 'the call does not return' plus the guard being the first statement of every id-taking function (mode P cannot observe state at a panic)"]),
+    "C17": dict(runs=[dict(unit=U4, groups=["meta"], mode="P")], own_groups=["meta", "P"], owns_shared=True,
+                undecided_sentences=["'methods of the concrete type': the vtable attached is the one whose function was built for the resource's own type id (proved); that this vtable dispatches to the concrete type's methods is rustc's unsizing coercion inside the user's CastFrom impl (unsafe, trusted)",
+                                     "the `nightly` feature variant is not extracted", "'in first-registration order and once each' across successive next() calls is the per-call contract iterated (no history lemma is proved)"]),
     "C10": dict(runs=[dict(unit=U1, groups=["fit", "wid"])], own_groups=["fit", "wid"], undecided_sentences=[]),
     "C04": dict(runs=[dict(unit=U1, groups=["once"])], own_groups=["once"], owns_shared=True,
                 undecided_sentences=["multiplicity on the parallel path rests on the assumed contract of rayon (rule R11: each closure called exactly once)"]),
